@@ -1,14 +1,18 @@
 /-
 C17 — Packing directives are honoured exactly in the on-disk layout.
 
-Property theorems only.  Part 1 is about the model of `sort_by_file.c` (`Sqfs/Model/Sort.lean`), part 2 about
-the specification `specPack` (`Sqfs/Spec/PackSpec.lean`, DESIGN.md Appendix B) that the block-processor model
-is proved to refine (C02).  Every theorem quantifies over all file lists / sort lines / contents / block sizes /
-codecs / checksum functions; `fnmatch` is the parameter `mt`.
+Property theorems only.  Part 1 is about the model of `sort_by_file.c` (`Sqfs/Model/Sort.lean`, and
+`Sqfs/Model/C17SortTree.lean` for the whole `fstree_t`), parts 2 and 3 about the functional specification `specPack`
+(`Sqfs/Spec/PackSpec.lean`, DESIGN.md Appendix B) — whether the queue/thread implementation computes `specPack` is the
+subject of C02, here it is tied to the real tools by the byte-level image comparison of `tools/checks/c17.py` only —
+part 4 about the export table as `dir_writer.c` builds it (`Sqfs/Model/C17Export.lean`).  Every theorem quantifies
+over all file lists / sort lines / contents / block sizes / codecs / checksum functions; `fnmatch` is the parameter `mt`.
 -/
 import Sqfs.Proofs.Sort
 import Sqfs.Proofs.PackPos
 import Sqfs.Proofs.Export
+import Sqfs.Proofs.C17Export
+import Sqfs.Proofs.C17SortTree
 namespace Sqfs.C17
 open Sqfs.Sort Sqfs.Pack
 
@@ -86,7 +90,7 @@ theorem exact_line_matches_one (mt : Matcher) (l : SortLine) (h : l.dir.doGlob =
 
 /-- **Quoted names.**  Every name — whatever bytes it contains — can be written in a sort file between quotes
 (`\"` for `"`, `\\` for `\`) and is then decoded to exactly that name (and canonicalised like an unquoted one).
-This is the repaired decoder; the pinned one appends the stale tail of the buffer (`Witness.d26_current`). -/
+This is the current decoder (/repo 3c63401); the one before it appended the stale tail of the buffer (`Witness.d26_current`). -/
 theorem quoted_name_decodes (n : List UInt8) :
     decodeFilename true (QUOTE :: (escapeName n ++ [QUOTE]))
       = match Sqfs.Path.canonicalize n with
@@ -103,6 +107,56 @@ example :
     (sortFileList (applyLines mt ls (resetFiles [{ path := [97] }, { path := [98] }, { path := [99] }]))).map
         (fun f => (f.path, f.priority, f.flags))
       = [([98], -5, 0), ([97], 7, 1), ([99], 7, 1)] := by decide
+
+open Sqfs.C17SortTree Sqfs.FsTree in
+/-- **The sort file does not change the tree.**  `fstree_sort_files` on a whole `fstree_t` (`FsTree.Result`): the
+node tree (names, modes, owners, targets, link counts) and the `fs->inodes` array (hence every inode number) are the
+ones it was given, `fs->files` is a permutation of the old list, and the per-file attributes it leaves behind are
+exactly what the list-level model `sortFiles` (the function compared with the real code on every run, and the subject
+of the theorems above) computes for the files' paths.  The first two conjuncts hold by construction of the model —
+the model writes no other field; that the *real* function writes no other field of any node is observed on every run
+(harness op `sortx`, dump of the complete tree before and after), not proved. -/
+theorem directives_preserve_tree (terminate : Bool) (mt : Matcher) (rawLines : List (List UInt8)) (R : Result) (s : Sorted)
+    (h : fstreeSortFiles terminate mt rawLines R = .ok s) :
+    s.fs.tree = R.tree ∧ s.fs.inodes = R.inodes ∧ s.fs.files.Perm R.files
+      ∧ s.attrs.map (·.path) = s.fs.files.map joinPath
+      ∧ sortFiles terminate mt rawLines (R.files.map joinPath) = .ok s.attrs := by
+  unfold fstreeSortFiles at h
+  cases hd : decodeLines terminate 0 rawLines with
+  | error e => rw [hd] at h; cases h
+  | ok ls =>
+    rw [hd] at h
+    simp only [Except.ok.injEq] at h
+    subst h
+    -- the marked list, one entry per file of `R.files`
+    generalize hm : applyLines mt ls (resetFiles (R.files.map (fun p => ({ path := joinPath p } : FileEnt)))) = marked
+    have hpaths : marked.map (·.path) = R.files.map joinPath := by
+      rw [← hm, applyLines_paths]; simp [resetFiles, List.map_map, Function.comp_def]
+    have hlen : marked.length = R.files.length := by simpa using congrArg List.length hpaths
+    have hperm := sortBy_perm (fun x : Path × FileEnt => x.2.priority) (R.files.zip marked)
+    refine ⟨rfl, rfl, ?_, ?_, ?_⟩
+    · have := hperm.map (·.1)
+      rwa [List.map_fst_zip (by omega)] at this
+    · simp only [List.map_map]
+      apply List.map_congr_left
+      intro x hx
+      exact zip_rel joinPath (·.path) R.files marked hpaths x (hperm.mem_iff.mp hx)
+    · simp only [sortFiles, hd, sortFileList]
+      have e : (R.files.map joinPath).map (fun p => ({ path := p } : FileEnt))
+          = R.files.map (fun p => ({ path := joinPath p } : FileEnt)) := by simp [List.map_map, Function.comp_def]
+      rw [e, hm]
+      have := sortBy_map (fun x : Path × FileEnt => x.2) (fun f : FileEnt => f.priority) (R.files.zip marked)
+      rw [List.map_snd_zip (by omega)] at this
+      exact congrArg Except.ok this.symm
+
+
+-- non-vacuity: two files, the second is moved to the front; tree and inode array are carried along
+open Sqfs.C17SortTree Sqfs.FsTree in
+example :
+    let R : Result := { tree := default, inodes := [[[98]], [[97]], []], files := [[[97]], [[98]]] }
+    (fstreeSortFiles true (fun _ _ _ => false) [[45, 53, 32, 98]] R).toOption.map
+        (fun s => (s.fs.inodes, s.fs.files, s.attrs.map (fun f => (f.path, f.priority))))
+      = some ([[[98]], [[97]], []], [[[98]], [[97]]], [([98], -5), ([97], 0)]) := by decide
 
 /-! ## Part 2 — `specPack`: each directive has exactly its layout effect -/
 
@@ -223,7 +277,7 @@ theorem no_tail_packing_layout (P : Params) (σ : State) (F : Flags) (d : List U
 
 /-- **`dont_compress`** (full statement).  Every block word of such a file is a hole or has the "stored
 uncompressed" bit, **and** the fragment block that holds its tail end is stored uncompressed — also when the tail is
-deduplicated (a `dont_compress` tail is only ever shared with `dont_compress` tails; D27 is the pinned code
+deduplicated (a `dont_compress` tail is only ever shared with `dont_compress` tails; D27 was the code before /repo fcd11e4
 breaking this). -/
 theorem dont_compress_effect (P : Params) (files : List InFile) (i : Nat) (h : i < files.length)
     (hf : files[i].flags.dontCompress = true) :
@@ -295,6 +349,27 @@ example :
         (97, some (0, 2), false), (98, some (1, 0), false)]
     ∧ (specPack P fs).files.map (readFile P (specPack P fs)) = fs.map (·.data) := by decide
 
+/-- **The directives do not change what the inode says about the file's length.**  One result per input file, in
+input order, and its size field is the input length — whatever the flags. -/
+theorem directives_preserve_size (P : Params) (files : List InFile) :
+    (specPack P files).files.length = files.length
+    ∧ ∀ i (h : i < files.length), ∃ r, (specPack P files).files[i]? = some r ∧ r.size = files[i].data.length := by
+  refine ⟨by rw [specPack_files]; exact packFiles_length P files {}, ?_⟩
+  intro i h
+  apply specPack_lift P files (fun f r => r.size = f.data.length) _ i h
+  intro σ f
+  by_cases hne : f.data = []
+  · rw [packFile_empty P σ f hne]; simp [hne]
+  · exact (packFile_shape P σ f hne _ rfl).1
+
+
+/-! ## Part 4 — the export table
+
+`export_table_ok` is about the ideal table (a list that grows on demand).  `export_array_refines` and
+`export_table_written` carry it to what `dir_writer.c` does: a `realloc`ed array with a capacity that doubles from 512,
+a 0xFF fill of the gap, and `sqfs_write_table` cutting the `8 * N` bytes into 8 KiB metadata blocks.
+`export_table_of_tree` discharges the hypothesis "every inode number occurs" from the inode numbering model. -/
+
 /-- **Export table** (`--exportable`).  `ref m` = inode reference of inode number `m` (hard links repeat a
 number with the same reference).  After `add_export_table_entry` for every directory entry (inode numbers `nums`,
 in any order, with repetitions) and finally the root, where every inode number `1..N` occurs: the table has exactly
@@ -317,5 +392,100 @@ theorem export_table_ok (ref : Nat → UInt64) (nums : List Nat) (root N : Nat)
   omega
 
 example : exportTable [(2, 100), (3, 7), (2, 100)] (1, 50) = [50, 100, 7] := by decide
+
+
+open Sqfs.C17Export in
+/-- **The array of `dir_writer.c` holds the ideal table** — for every sequence of `add_export_table_entry` calls with
+inode numbers ≥ 1 (any order, any gaps, beyond the initial 512 cells and beyond any later capacity): no call stores or
+fills outside the allocation (`addAll` never yields `.outOfBounds`), `used` is the length of the ideal table, and the
+`size * used` bytes handed to `sqfs_write_table` contain no indeterminate cell and are the little endian ideal table. -/
+theorem export_array_refines (entries : List (Nat × UInt64)) (root : Nat × UInt64)
+    (h : ∀ e ∈ entries ++ [root], 1 ≤ e.1) :
+    ∃ a, addAll init (entries ++ [root]) = .ok a
+      ∧ a.used = (exportTable entries root).length
+      ∧ a.used ≤ a.cells.length
+      ∧ tableBytes a = .ok ((exportTable entries root).flatMap le64) := by
+  obtain ⟨a, h1, h2⟩ := addAll_inv (entries ++ [root]) init [] init_inv h
+  exact ⟨a, h1, h2.1, h2.2.1, tableBytes_inv a _ h2⟩
+
+
+-- non-vacuity: entry 600 first (capacity 512 → 1024, gap filled), then two small ones
+set_option maxRecDepth 16384 in
+open Sqfs.C17Export in
+example : (match addAll init [(600, 7), (2, 9), (1, 5)] with
+    | .ok a => a.cells.length == 1024 && a.used == 600 && a.cells.take 3 == [some 5, some 9, some noRef]
+    | .error _ => false) = true := by decide
+
+open Sqfs.C17Export in
+/-- **… and is written completely.**  The whole run (`add_entry` calls, root entry, `sqfs_write_table`) succeeds;
+unpacking the metadata blocks in order gives back exactly the ideal table (8 bytes per inode); there are
+`⌈8 N / 8192⌉` blocks — one per 1024 inodes — and as many location entries. -/
+theorem export_table_written (cmp : MetaWriter.Codec) (entries : List (Nat × UInt64)) (root : Nat × UInt64)
+    (h : ∀ e ∈ entries ++ [root], 1 ≤ e.1) :
+    ∃ w, exportRun cmp entries root.1 root.2 = .ok w
+      ∧ (w.1.map (·.raw)).flatten = (exportTable entries root).flatMap le64
+      ∧ w.1.length = (8 * (exportTable entries root).length + (Consts.metaBlockSize - 1)) / Consts.metaBlockSize
+      ∧ w.2.length = w.1.length := by
+  have he : ∀ e ∈ entries, 1 ≤ e.1 := fun e hm => h e (List.mem_append_left _ hm)
+  obtain ⟨a, h1, h2⟩ := addAll_inv entries init [] init_inv he
+  obtain ⟨a', h3, h4⟩ := addEntry_inv a _ root.1 root.2 h2 (h root (by simp))
+  have htb := tableBytes_inv a' _ h4
+  have hfold : addExport (entries.foldl (fun t e => addExport t e.1 e.2) []) root.1 root.2 = exportTable entries root := by
+    simp [exportTable, List.foldl_append]
+  rw [hfold] at htb
+  obtain ⟨w1, w2, w3, _⟩ := writeTable_spec cmp ((exportTable entries root).flatMap le64)
+  refine ⟨_, by simp only [exportRun, h1, writeExport, h3, htb], w1, ?_, w3⟩
+  rw [w2]
+  have : ((exportTable entries root).flatMap le64).length = 8 * (exportTable entries root).length := by
+    generalize exportTable entries root = t
+    induction t with
+    | nil => rfl
+    | cons v t ih => simp only [List.flatMap_cons, List.length_append, ih, List.length_cons]; simp [le64]; omega
+  rw [this]
+
+
+open Sqfs.Numbering Sqfs.C17Export in
+/-- **Every inode of a numbered tree gets its entry.**  `cs` = the root's children (any tree shape, hard-link entries
+included), numbered as `alloc_inode_num_dfs` does (`Sqfs/Model/Numbering.lean`): `N` inodes, the root is number `N`.
+For every list `nums` of `add_entry` calls that covers the children of all directories (`entriesT`; extra calls — the
+hard-link entries — may repeat numbers of the tree), followed by the root's entry, the table is exactly
+`[ref 1, …, ref N]`. -/
+theorem export_table_of_tree (cs : List Tree) (ref : Nat → UInt64) (nums : List Nat)
+    (hcov : ∀ m ∈ entriesT (numberRoot cs).1, m ∈ nums)
+    (hin : ∀ m ∈ nums, 1 ≤ m ∧ m ≤ (numberRoot cs).2) :
+    exportTable (nums.map (fun m => (m, ref m))) ((numberRoot cs).2, ref (numberRoot cs).2)
+      = (List.range' 1 (numberRoot cs).2).map ref := by
+  have hroot : (numberRoot cs).1 = .dir (numberRoot cs).2 (step2 (allocL cs 0).1 (allocL cs 0).2).1 := rfl
+  have hN : 1 ≤ (numberRoot cs).2 := by simp [numberRoot]
+  have hall : ∀ m, 1 ≤ m → m ≤ (numberRoot cs).2 → m ∈ nums ++ [(numberRoot cs).2] := by
+    intro m h1 h2
+    have hm : m ∈ numsT (numberRoot cs).1 := (numberRoot_perm cs).mem_iff.mpr (by simp [List.mem_range'_1]; omega)
+    rw [hroot] at hm hcov
+    simp only [numsT, List.mem_append, List.mem_singleton] at hm
+    rcases hm with hm | hm
+    · exact List.mem_append_left _ (hcov m (by simpa [entriesT] using nums_covered.2 _ m hm))
+    · simp [hm]
+  have hrange : ∀ m ∈ nums ++ [(numberRoot cs).2], 1 ≤ m ∧ m ≤ (numberRoot cs).2 := by
+    intro m hm
+    rcases List.mem_append.1 hm with hm | hm
+    · exact hin m hm
+    · simp at hm; omega
+  obtain ⟨hl, hg⟩ := export_table_ok ref nums (numberRoot cs).2 (numberRoot cs).2 hrange hall
+  apply List.ext_getElem?
+  intro i
+  by_cases hi : i < (numberRoot cs).2
+  · have := hg (i + 1) (by omega) (by omega)
+    simp only [Nat.add_sub_cancel] at this
+    rw [this]
+    grind
+  · rw [List.getElem?_eq_none_iff.2 (by omega), List.getElem?_eq_none_iff.2 (by simp; omega)]
+
+
+-- non-vacuity: root = { file, dir { file, hard link }, file }: 5 inodes, the calls cover 1..4, the root is 5
+open Sqfs.Numbering Sqfs.C17Export in
+example :
+    let cs : List Tree := [.file, .dir [.file, .hlink], .file]
+    (numberRoot cs).2 = 5 ∧ entriesT (numberRoot cs).1 = [2, 3, 1, 4]
+      ∧ (∀ m ∈ entriesT (numberRoot cs).1, 1 ≤ m ∧ m ≤ (numberRoot cs).2) := by decide
 
 end Sqfs.C17
